@@ -15,7 +15,7 @@ EXTENDS Integers, Sequences, FiniteSets, TLC
 
 NoConn == [outcome |-> "none", up |-> FALSE, upT |-> 0, openSeen |-> FALSE, isRe |-> FALSE, pending |-> <<>>,
            ending |-> "none", endT |-> 0, closeFrame |-> [hasBody |-> FALSE, status |-> 0, reason |-> <<>>],
-           tclosed |-> FALSE, npings |-> 0, lastPingT |-> 0, pings |-> <<>>, npongs |-> 0, timeoutT |-> -1,
+           tclosed |-> FALSE, tcloseT |-> -1, npings |-> 0, lastPingT |-> 0, pings |-> <<>>, npongs |-> 0, timeoutT |-> -1,
            run |-> 0, appCloseFirst |-> FALSE]
 
 MInit ==
@@ -131,6 +131,7 @@ MError(s, e) ==
   IF s.nclose > 0 THEN MFail(s, "C14.callback_after_on_close")
   ELSE IF ~e.isexc THEN MFail(s, "C14.close_frame_reported_as_error")
   ELSE IF e.cls \in InternalErrors /\ ~(s.cbErrorsExpected > 0) THEN MFail(s, "C14.internal_error_reported_to_on_error")
+  ELSE IF e.cls \in InternalErrors THEN MFail(s, "C13.exception_of_a_callback_replaced_by_an_internal_error")   \* (the callbacks of the scenarios raise RuntimeError)
   ELSE IF s.cbErrorsExpected > 0 /\ e.cls = "RuntimeError"
        THEN MRes([s EXCEPT !.cbErrorsExpected = @ - 1, !.lastCb = "error"], TRUE, "")   \* a user callback's own exception: reported, the run goes on
   ELSE IF s.appClose /\ (k < s.firstCid \/ s.conns[k].ending \in {"none", "close_frame"}) /\ ~(s.cbErrorsExpected > 0)
@@ -180,11 +181,16 @@ FirstUnanswered(c) ==
     IF un = {} THEN 0 ELSE CHOOSE i \in un : \A j \in un : i <= j
 
 \* evaluated when a connection is over (at time endT): was a silent peer detected in time?
+\* (with a reconnect interval or an external dispatcher the loss is not necessarily reported to on_error: there the
+\*  moment the connection is given up - its transport released - counts as the detection)
 SilenceFault(s, c, endT) ==
-  LET u == FirstUnanswered(c) IN
-    s.T > 0 /\ s.R = 0 /\ ~s.ext /\ u # 0 /\
-    (IF c.timeoutT >= 0 THEN c.timeoutT > c.pings[u].t + 2 * s.T
-     ELSE endT > c.pings[u].t + 2 * s.T)
+  LET u == FirstUnanswered(c)
+      given == IF c.timeoutT >= 0 THEN c.timeoutT
+               ELSE IF (s.R > 0 \/ s.ext) /\ c.tcloseT >= 0 THEN c.tcloseT
+               ELSE endT
+      \* (the old transport is released when the next attempt starts, one reconnect interval after the detection)
+      slack == IF c.timeoutT < 0 /\ (s.R > 0 \/ s.ext) /\ c.tcloseT >= 0 THEN s.R ELSE 0
+  IN s.T > 0 /\ u # 0 /\ given > c.pings[u].t + 2 * s.T + s.jitter + slack
 
 PingsMissing(s, c, endT) ==
   s.I > 0 /\ endT - c.upT >= 2 * s.I /\ c.npings < ((endT - c.upT) \div s.I) - 2
@@ -263,7 +269,8 @@ MStep0(s, e) ==
     [] e.ev = "app_close" -> MRes([s EXCEPT !.appClose = TRUE, !.appCloseT = e.t, !.stop = TRUE], TRUE, "")
     [] e.ev = "ping_sent" -> MPingSent(s, e)
     [] e.ev = "app_send" -> MAppSend(s, e)
-    [] e.ev = "tclose" -> IF e.cid + 1 \in 1..Len(s.conns) THEN MRes([s EXCEPT !.conns[e.cid + 1].tclosed = TRUE], TRUE, "") ELSE MRes(s, TRUE, "")
+    [] e.ev = "tclose" -> IF e.cid + 1 \in 1..Len(s.conns) THEN MRes([s EXCEPT !.conns[e.cid + 1].tclosed = TRUE,
+                                                                                    !.conns[e.cid + 1].tcloseT = IF @ >= 0 THEN @ ELSE e.t], TRUE, "") ELSE MRes(s, TRUE, "")
     [] e.ev = "run_ret" -> MRunRet(s, e)
     [] e.ev = "run_raise" -> MRunRaise(s, e)
     [] e.ev = "quiesce" -> MQuiesce(s, e)
